@@ -447,7 +447,36 @@ def run_plan(case) -> List[Tuple[str, str]]:
             outcome = "crashed"
             final = inj.observe()
         else:
-            raised = body()
+            poll_bad: List[str] = []
+            stop = [False]
+            if case.get("poll"):
+                # a real concurrent reader: a thread that re-opens and reads the destination in a tight loop
+                import threading
+
+                def reader():
+                    while not stop[0]:
+                        try:
+                            with builtins.open(dest, "rb") as fh:
+                                data = fh.read()
+                        except FileNotFoundError:
+                            data = None
+                        c = inj.classify(data)
+                        if c not in ("old", "new"):
+                            poll_bad.append(c)
+                            return
+                rt = threading.Thread(target=reader, daemon=True)
+                old_si = sys.getswitchinterval()
+                sys.setswitchinterval(1e-6)
+                rt.start()
+            try:
+                raised = body()
+            finally:
+                if case.get("poll"):
+                    stop[0] = True
+                    rt.join(5)
+                    sys.setswitchinterval(old_si)
+            if poll_bad:
+                fails.append(("ReaderNeverPartial", f"a concurrently polling reader observed {poll_bad[0]} content"))
             final = inj.observe()
             if inj.obs and "dest" not in inj.obs[-1]:
                 inj.obs[-1].update(final)
@@ -531,6 +560,8 @@ def check(run) -> None:
                     if q and not old and caller not in ("bytes",):
                         continue
                     cases.append(dict(p, caller=caller, size=size, old=old, workdir=run.workdir))
+                    if not q and p["outcome"] != "crashed" and size >= 9000 and caller in ("bytes", "text"):
+                        cases.append(dict(p, caller=caller, size=size, old=old, workdir=run.workdir, poll=True))
     # atomic_replace on its own (log rotation uses it directly): the suffix of every plan whose earlier
     # steps all succeed
     for p in plans:
